@@ -104,7 +104,7 @@ def run_cases(rep, tier, seed, prop, impl, model):
         if m:
             from_act = int(m.group(1))
             count = g.get("repeat_count", -1)
-        if g.get("repeat_char"):
+        if g.get("repeat_char") and m:
             # the documented rule, evaluated here: the repetition starts at the first act the expression matches
             story = pr.get("Story") or []
             want = next((i + 1 for i, a in enumerate(story) if g["repeat_char"] in a), 0)
